@@ -176,8 +176,18 @@ func mutantMain(args []string) int {
 			for _, f := range fs {
 				alts = append(alts, regexp.QuoteMeta(f))
 			}
+			// package-wide scans (directives) always run; a mutated function that is not under this
+			// property's contracts contributes nothing, as in the real check
+			alts = append(alts, "directives")
 			mcfg.Funcs = "^(" + strings.Join(alts, "|") + ")$"
 			mcfg.re = regexp.MustCompile(mcfg.Funcs)
+			if cfg.re != nil {
+				// never verify more than the property's own functions
+				base := cfg.re
+				sel := mcfg.re
+				mcfg.re = nil
+				mcfg.match = func(s string) bool { return base.MatchString(s) && sel.MatchString(s) }
+			}
 		}
 		r := runProp(&mcfg, 10*time.Second, ov, work, false, 4)
 		if r.loadErr != nil {
